@@ -131,3 +131,9 @@ Theorem C15_second_propagation_adds_nothing_with_promotion : forall gs mk promo 
   propagate_step_p gs mk promo name g = Some g' -> propagate_step_p gs mk promo name g' = Some g'.
 Proof. exact second_run_adds_nothing_p. Qed.
 Print Assumptions C15_second_propagation_adds_nothing_with_promotion.
+
+(* ---- the transformations filter scales EVERY glyph's advance -- a glyph with nothing in it (space) too (repair F44) ---- *)
+Theorem C15_transform_scales_every_advance : forall m gs n g,
+  assoc n gs = Some g -> option_map gwidth (assoc n (transform_set m gs)) = Some (xx m * gwidth g).
+Proof. exact transform_scales_every_advance. Qed.
+Print Assumptions C15_transform_scales_every_advance.
